@@ -57,6 +57,11 @@ def get_line_range_for_node(
 
     """
     first_lineno = node.lineno
+    end_lineno = getattr(node, "end_lineno", None)
+    if end_lineno is not None:
+        # The parser knows where the node ends; the heuristics below are only
+        # needed for nodes without position information.
+        return list(range(first_lineno, end_lineno + 1))
     # iterate through all childnodes and find the max lineno
     last_lineno = first_lineno + 1
     for childnode in ast.walk(node):
